@@ -51,6 +51,14 @@ def _impl(tier, seed, search):
             drifted = [(((cls(v) ** -3) ** 4) ** 5) for v in vals]
             X = cls(); X.data = [np.array(d_.A, float) for d_ in drifted]
             return X, drifted
+        if int_first == 'mixed' and c in ('SO2', 'SE2', 'SO3', 'SE3'):
+            # proper and drifted values side by side in one object
+            def drift_(v, eps):
+                A_ = np.array(v, float); n_ = 2 if c in ('SO2', 'SE2') else 3
+                A_[:n_, :n_] = A_[:n_, :n_] @ (np.eye(n_) + eps * (np.arange(n_ * n_).reshape(n_, n_) / (n_ * n_) - 0.3)); return cls(A_, check=False)
+            objs = [drift_(v, 10.0 ** -(4 + k_)) if k_ % 2 else cls(v) for k_, v in enumerate(vals)]
+            X = cls(); X.data = [np.array(d_.A, float) for d_ in objs]
+            return X, objs
         if int_first is True: vals[0] = int_member(c)
         X = cls(vals[0]) if m == 1 else cls(vals)
         return X, [cls(v) for v in vals]
@@ -142,9 +150,9 @@ def _impl(tier, seed, search):
                         gi = got[i]
                         same = (gi == w) if isinstance(w, bool) or isinstance(gi, bool) else (np.shape(gi) == np.shape(w) and np.allclose(gi, w, rtol=1e-12, atol=1e-12))
                         if not same: L.fail(f'binop-element:{c}:{opn}:MxM', f'X {opn} X for one {c} object holding {m} values: element {i} is not the single-valued result', inp); break
-            for int_first in (False, True, 'drift'):
+            for int_first in (False, True, 'drift', 'mixed'):
                 if int_first is True and m == 1: continue
-                if int_first == 'drift' and (c not in ('SO2', 'SE2', 'SO3', 'SE3') or m not in (1, 3)): continue
+                if int_first in ('drift', 'mixed') and (c not in ('SO2', 'SE2', 'SO3', 'SE3') or m not in ((1, 3) if int_first == 'drift' else (2, 3))): continue
                 # power and unary / per-value methods on an m-valued object (second pass: the first value has integer entries / dtype)
                 X, xs = mkobj(c, m, int_first)
                 inp = dict(cls=c, m=m, first_value_integer=int_first)
@@ -170,40 +178,48 @@ def _impl(tier, seed, search):
                     methods = {'inv': lambda Z: Z.inv(), 'exp': lambda Z: Z.exp(), 'S': lambda Z: Z.S}
                     if c == 'Twist3': methods.update({'v': lambda Z: Z.v, 'w': lambda Z: Z.w, 'pitch': lambda Z: Z.pitch(), 'theta': lambda Z: Z.theta(), 'se3': lambda Z: Z.se3()})
                     else: methods.update({'v': lambda Z: Z.v, 'w': lambda Z: Z.w, 'se2': lambda Z: Z.se2()})
-                for mn, f in methods.items():
-                    L.count('per-value', key=(c, mn, m)); L.sample(f'per-value:{c}', dict(inp, method=mn))
+                # … and again after the object has been edited in place without changing its length (reversed; one value overwritten):
+                # nothing remembered from the first pass may survive the edit
+                for phase in ('', 'reversed', 'setitem'):
+                    if phase and (m == 1 or int_first is not False): continue
                     try:
-                        want = [f(x) for x in xs]
-                    except Exception:
-                        continue       # single-valued method itself fails (other properties)
-                    try:
-                        res = f(X)
-                    except Exception as e:
-                        L.fail(f'per-value-raises:{c}.{mn}:{"1" if m == 1 else "M"}', f'{c}.{mn} on an object holding {m} values raised {type(e).__name__}: {str(e)[:80]}', dict(inp, method=mn), observed=type(e).__name__)
-                        continue
-                    if m == 1:
-                        continue
-                    def flat(v):
-                        if isobj(v): return np.asarray(v.data[0], float).ravel()
-                        if isinstance(v, tuple): return np.concatenate([np.ravel(np.asarray(t_, float)) for t_ in v])
-                        return np.ravel(np.asarray(v, float))
-                    W = [flat(w) for w in want]
-                    if isobj(res): G = [np.asarray(a, float).ravel() for a in res.data]
-                    elif isinstance(res, (list, tuple)) and len(res) == m: G = [flat(a) for a in res]
-                    else:
-                        A = np.asarray(res, float)
-                        G = None
-                        if mn == '*point' and A.ndim == 2 and A.shape[1] == m: G = [A[:, i].ravel() for i in range(m)]       # documented layout: one column per value
-                        elif A.ndim >= 1 and A.shape[0] == m: G = [A[i].ravel() for i in range(m)]
-                        if (G is None or any(gi.shape != wi.shape or not np.allclose(gi, wi, atol=1e-12, equal_nan=True) for gi, wi in zip(G, W))) and A.ndim >= 2 and A.shape[-1] == m:
-                            G2 = [A[..., i].ravel() for i in range(m)]
-                            if all(gi.shape == wi.shape and np.allclose(gi, wi, atol=1e-12, equal_nan=True) for gi, wi in zip(G2, W)): G = G2
-                    if G is None or len(G) != m:
-                        L.fail(f'per-value-count:{c}.{mn}', f'{c}.{mn} on {m} values does not return {m} results', dict(inp, method=mn), observed=repr(res)[:120]); continue
-                    for i in range(m):
-                        if G[i].shape != W[i].shape or not np.allclose(G[i], W[i], rtol=1e-12, atol=1e-12, equal_nan=True):
-                            L.fail(f'per-value-element:{c}.{mn}', f'{c}.{mn} on {m} values: result {i} differs from the method applied to element {i}', dict(inp, method=mn), observed=repr(G[i])[:100], required=repr(W[i])[:100])
-                            break
+                        if phase == 'reversed': X.reverse(); xs = xs[::-1]
+                        elif phase == 'setitem': X[0] = xs[-1]; xs = [xs[-1]] + xs[1:]
+                    except Exception: break
+                    for mn, f in methods.items():
+                        L.count('per-value', key=(c, mn, m, phase)); L.sample(f'per-value:{c}', dict(inp, method=mn))
+                        try:
+                            want = [f(x) for x in xs]
+                        except Exception:
+                            continue       # single-valued method itself fails (other properties)
+                        try:
+                            res = f(X)
+                        except Exception as e:
+                            L.fail(f'per-value-raises:{c}.{mn}:{"1" if m == 1 else "M"}', f'{c}.{mn} on an object holding {m} values raised {type(e).__name__}: {str(e)[:80]}', dict(inp, method=mn), observed=type(e).__name__)
+                            continue
+                        if m == 1:
+                            continue
+                        def flat(v):
+                            if isobj(v): return np.asarray(v.data[0], float).ravel()
+                            if isinstance(v, tuple): return np.concatenate([np.ravel(np.asarray(t_, float)) for t_ in v])
+                            return np.ravel(np.asarray(v, float))
+                        W = [flat(w) for w in want]
+                        if isobj(res): G = [np.asarray(a, float).ravel() for a in res.data]
+                        elif isinstance(res, (list, tuple)) and len(res) == m: G = [flat(a) for a in res]
+                        else:
+                            A = np.asarray(res, float)
+                            G = None
+                            if mn == '*point' and A.ndim == 2 and A.shape[1] == m: G = [A[:, i].ravel() for i in range(m)]       # documented layout: one column per value
+                            elif A.ndim >= 1 and A.shape[0] == m: G = [A[i].ravel() for i in range(m)]
+                            if (G is None or any(gi.shape != wi.shape or not np.allclose(gi, wi, atol=1e-12, equal_nan=True) for gi, wi in zip(G, W))) and A.ndim >= 2 and A.shape[-1] == m:
+                                G2 = [A[..., i].ravel() for i in range(m)]
+                                if all(gi.shape == wi.shape and np.allclose(gi, wi, atol=1e-12, equal_nan=True) for gi, wi in zip(G2, W)): G = G2
+                        if G is None or len(G) != m:
+                            L.fail(f'per-value-count:{c}.{mn}', f'{c}.{mn} on {m} values does not return {m} results', dict(inp, method=mn), observed=repr(res)[:120]); continue
+                        for i in range(m):
+                            if G[i].shape != W[i].shape or not np.allclose(G[i], W[i], rtol=1e-12, atol=1e-12, equal_nan=True):
+                                L.fail(f'per-value-element:{c}.{mn}', f'{c}.{mn} on {m} values{(" after an in-place edit (" + phase + ")") if phase else ""}: result {i} differs from the method applied to element {i}', dict(inp, method=mn, after=phase), observed=repr(G[i])[:100], required=repr(W[i])[:100])
+                                break
     # == and != on sequences decide each pair exactly as the single-valued operator does — also for nearly equal values
     for c in CL:
         cls, one = CL[c]
